@@ -74,7 +74,7 @@ impl Method for HighestIndex {
 		}
 
 		match length {
-			0 => Err(Error::WrongMethodParameters),
+			0 | PeriodType::MAX => Err(Error::WrongMethodParameters),
 			length => Ok(Self {
 				window: Window::new(length, value),
 				index: 0,
@@ -188,7 +188,7 @@ impl Method for LowestIndex {
 		}
 
 		match length {
-			0 => Err(Error::WrongMethodParameters),
+			0 | PeriodType::MAX => Err(Error::WrongMethodParameters),
 			length => Ok(Self {
 				window: Window::new(length, value),
 				index: 0,
